@@ -1075,7 +1075,7 @@ func (e *clkEngine) storesOf(c clkCell) []clkStore {
 
 func (e *clkEngine) cellName(c clkCell) string {
 	if c.g != nil {
-		return "g:" + strings.TrimPrefix(e.r.D.D(c.g), "&(g:")
+		return "g:" + strings.TrimSuffix(strings.TrimPrefix(e.r.D.D(c.g), "&(g:"), ")")
 	}
 	return e.fieldName(c.f)
 }
@@ -1633,4 +1633,134 @@ func noStaleClock(r *Run, filters []clkFilter) {
 		}
 	}()
 	r.Check("no-stale-clock:clock-recognised", nClock > 0, "-", "positive control: the derivation finds a reading of the clock behind "+strings.Join(names, ", "))
+}
+
+// ---- C02.R5: the options a submission is judged by ------------------------------------------------------------
+
+// c02LogOptions decides "ValidateChain judges the submission by the log's configured options" as a fact about the
+// struct handed over, not about the spelling of the argument: it is the log's options themselves (p0.validationOpts),
+// or a local copy of them in which nothing was changed except — at most — the instant to compare with, and that
+// only where none is configured (the field is zero) and only to a reading of the clock taken during this very call
+// (the per-call form of "expiry is judged by the log's time source": decided with the derivation and the lifetime
+// analysis of the no-stale-clock rule).  Every other write into the copy, a copy taken from anything else, or an
+// address of the copy that is handed on fails.
+func c02LogOptions(r *Run, fn *ssa.Function, v ssa.CallInstruction) {
+	const key = "verifyAddChain:log-options"
+	args := CallArgs(v)
+	if len(args) < 2 {
+		r.Fail(key, r.Where(v), "undecided: ValidateChain is not called with the submitted chain and the options")
+		return
+	}
+	arg := args[1]
+	got := r.D.D(arg)
+	if got == "p0.validationOpts" {
+		r.Pass(key, r.Where(v), "arg 1 of trillian/ctfe.ValidateChain = p0.validationOpts")
+		return
+	}
+	mismatch := "arg 1 of trillian/ctfe.ValidateChain = " + clipStr(got, 120) + " (expected p0.validationOpts)"
+	ld, ok := arg.(*ssa.UnOp)
+	if !ok || ld.Op != token.MUL {
+		r.Fail(key, r.Where(v), mismatch)
+		return
+	}
+	a, ok := ld.X.(*ssa.Alloc)
+	if !ok || a.Referrers() == nil {
+		r.Fail(key, r.Where(v), mismatch)
+		return
+	}
+	name := r.D.allocName(a)
+	e := newClkEngine(r)
+	whole, bad := 0, ""
+	var overrides []string
+	var visit func(addr ssa.Value, path string, ft types.Type)
+	visit = func(addr ssa.Value, path string, ft types.Type) {
+		for _, ref := range *addr.Referrers() {
+			if bad != "" {
+				return
+			}
+			switch x := ref.(type) {
+			case *ssa.DebugRef:
+			case *ssa.UnOp:
+				if x.Op != token.MUL {
+					bad = "the copy is used by " + x.String()
+				}
+			case *ssa.FieldAddr:
+				f := fieldOf(x)
+				if f == nil || x.Referrers() == nil {
+					bad = "a field of the copy does not resolve"
+					return
+				}
+				visit(x, path+"."+f.Name(), f.Type())
+			case *ssa.Store:
+				if x.Addr != addr {
+					bad = "the address of the copy" + path + " is stored to " + clipStr(r.D.D(x.Addr), 60)
+					return
+				}
+				if path == "" {
+					// the copy is taken from the log's options, before the call
+					if r.D.D(x.Val) != "p0.validationOpts" {
+						bad = "the copy is taken from " + clipStr(r.D.D(x.Val), 80) + ", not from the log's options p0.validationOpts"
+						return
+					}
+					if !(x.Block() == v.Block() && instrIdx(x) < instrIdx(v) || x.Block() != v.Block() && x.Block().Dominates(v.Block())) {
+						bad = "the copy of the log's options is not taken on every path to the call"
+						return
+					}
+					whole++
+					continue
+				}
+				// a field of the copy is overwritten: only the instant to compare with, only where none is configured, only by a clock read of this call
+				if !isTimeTime(ft) {
+					bad = "field " + strings.TrimPrefix(path, ".") + " of the copy is overwritten with " + clipStr(r.D.D(x.Val), 80) + ": the submission is not judged by the log's configured " + strings.TrimPrefix(path, ".")
+					return
+				}
+				out := e.explore(x.Val, "", false)
+				r.Valuations++
+				if len(out.unknown) > 0 {
+					bad = "undecided: the instant stored into " + strings.TrimPrefix(path, ".") + " derives from something that is not followed: " + out.unknown[0]
+					return
+				}
+				if len(out.clocks) == 0 {
+					bad = "the configured instant " + strings.TrimPrefix(path, ".") + " is replaced by " + clipStr(r.D.D(x.Val), 80) + ", which is neither the log's configuration nor a reading of the clock"
+					return
+				}
+				for _, leaf := range out.clocks {
+					if why := e.perCall(x, x.Addr, derefType(a.Type()), leaf); why != "" {
+						bad = "the instant stored into " + strings.TrimPrefix(path, ".") + " is a clock sample that is not taken during this call: " + why
+						return
+					}
+				}
+				atom := ""
+				for _, pat := range []string{"(time.Time).IsZero(" + name + path + ")", "(time.Time).IsZero(p0.validationOpts" + path + ")"} {
+					if len(r.bindAtom(fn, boolAtom(pat))) > 0 {
+						atom = pat
+						break
+					}
+				}
+				if atom == "" {
+					bad = "the configured instant " + strings.TrimPrefix(path, ".") + " is overwritten without a test that none is configured (IsZero)"
+					return
+				}
+				r.GuardAtom(fn, nil, key+":configured-time-kept"+path, boolAtom(atom), "F", []ssa.Instruction{x}, "the replacement of the configured instant by a clock reading")
+				overrides = append(overrides, strings.TrimPrefix(path, "."))
+			default:
+				bad = "the copy" + path + " is used by " + clipStr(clkInstrText(r, ref), 80) + ", which may change it"
+			}
+		}
+	}
+	visit(a, "", nil)
+	switch {
+	case bad != "":
+		r.Fail(key, r.Where(v), mismatch+": "+bad)
+	case whole == 0:
+		r.Fail(key, r.Where(v), mismatch+": the local is never set to the log's options")
+	default:
+		d := "arg 1 of trillian/ctfe.ValidateChain is a local copy of p0.validationOpts"
+		if len(overrides) > 0 {
+			d += " in which only " + strings.Join(overrides, ", ") + " is replaced — where it is zero — by a reading of the clock taken during this call"
+		} else {
+			d += ", unchanged"
+		}
+		r.Pass(key, r.Where(v), d)
+	}
 }
